@@ -236,6 +236,19 @@ Theorem C12_builtins :
 Proof. vm_compute. repeat split; reflexivity. Qed.
 Print Assumptions C12_builtins.
 
+(* What C12_implicit_is_appended does NOT give (code as it is after C11's repair "ArgumentError
+   is caught, the options recognised so far are kept"): because the implicit options are parsed
+   AFTER argv, a malformed argument anywhere in argv silently drops ALL implicit options.
+   "The implicit options of a compiler are always in effect" is refuted: nvcc with a trailing -I
+   loses -D__NVCC__ -D__CUDACC__ (only a "Could not parse all arguments" warning is logged). *)
+Theorem C12_implicit_survive_malformed_refuted :
+  exists argv,
+    pass_defs (cmd "nvcc" []) = [("sm_70", ["__NVCC__"; "__CUDACC__"; "__CUDA_ARCH__=700"]); ("default", ["__NVCC__"; "__CUDACC__"])] /\
+    pass_defs (cmd "nvcc" argv) = [("sm_70", ["A"; "__CUDA_ARCH__=700"]); ("default", ["A"])] /\
+    match cmd "nvcc" argv with inr (_, ev) => ev = ["W:partial"] | inl _ => False end.
+Proof. exists ["-DA"; "a.cu"; "-I"]. vm_compute. repeat split; reflexivity. Qed.
+Print Assumptions C12_implicit_survive_malformed_refuted.
+
 (* ... and every combination of the documented flags of the seven built-in names (plus common
    flags the definitions say nothing about) lies INSIDE the specification's scanner, so
    C12_flags_exact applies to each of these 256 command lines *)
